@@ -31,7 +31,7 @@ PROP = {
         "synchronous line: everything an end has written passes the line (delivered, dropped or garbled) before any timer of either end expires; a timeout is enabled only when nothing is in flight (no stale characters; T1, T2 far above the transit time)",
         "T1 < T2: after a bad or unexpected arrival in the receive procedure the NAK (sent after at most T1 of silence) precedes the peer's T2 expiry",
         "fault model = what E4 detects: handshake characters are delivered, dropped or replaced by a NON-control character; a block transmission arrives intact, not at all, or in a form the receive procedure rejects (one replaced character of header/body/checksum, truncation, a longer or invalid length). A character replaced BY a control character (C18_nak_to_ack_refuted) and a shortened length whose prefix happens to sum up (C17_short_length_undetected) are excluded",
-        "Down is terminal: an end whose send failed takes no further line step. The current engine keeps answering the line until the core's teardown reaches it and so loses messages it ACKs in that window (known finding C18-ack-into-closing-generation, C18_served_after_failure_refuted); the theorems hold for the engine with fixes/C18-stop-engine-after-send-failed.diff applied, which makes the assumption true",
+        "Down is terminal: an end whose send failed takes no further line step - matches the code since fix 2852a07 (lineEngine returns on ErrSendFailed); the old behaviour (finding C18-ack-into-closing-generation, fixed) is kept as C18_served_after_failure_refuted and watched by the race probe",
         "retries exhausted => terminal state Down; link re-establishment and the idle loop / runSend of transport.lineEngine are covered by the e2e run only",
         "C18_receiver_is_C17_assembler carries as premises: the token-to-header encoding yields well-formed headers addressed to the receiver and is injective (distinct system bytes per message); block index + 1 <= 32767",
         "blocks are abstract (token, index, last); the receiver's assembler is the abstract image of the C17 assembler on in-sequence blocks addressed to us, without T4 (C17 covers addressing, T4 and byte-level reassembly); consecutive messages of one direction carry distinct tokens (distinct system bytes)",
